@@ -24,10 +24,11 @@ def ascii85decode(data: bytes) -> bytes:
     """
     data = start_re.sub(b"", data)
     data = end_re.sub(b"", data)
-    return a85decode(data)
+    # PDF white space also includes FF and NUL (PDF 32000-1 7.2.2, Table 1)
+    return a85decode(data, ignorechars=b" \t\n\r\v\f\x00")
 
 
-bws_re = re.compile(rb"\s")
+bws_re = re.compile(rb"[\s\x00]")
 
 
 def asciihexdecode(data: bytes) -> bytes:
